@@ -6,6 +6,7 @@
 //! request a remote finishes writing). All rules are invariants over these histories and therefore
 //! independent of the schedule that produced them.
 
+use proptest::prelude::*;
 use serde::{Deserialize, Serialize};
 use std::collections::{BTreeMap, BTreeSet, HashMap};
 use std::sync::atomic::AtomicU64;
@@ -106,6 +107,17 @@ pub fn render_cmd(li: usize, cmd: &MapCmd) -> String {
         MapCmd::Take(n) => format!("@take({})", n),
         MapCmd::Drop(n) => format!("@drop({})", n),
     }
+}
+
+/// Attach a remote: the request channel (remote -> agent) is roomy about half of the time, so that several
+/// envelopes reach the agent within one poll and the agent's own writer-busy states are reached; the response
+/// channel (agent -> remote) is mostly tiny so that the runtime's per-remote queues are exercised.
+pub fn arb_attach() -> impl Strategy<Value = Op> {
+    (
+        prop_oneof![1 => vsim::arb_small_cap(), 1 => prop_oneof![Just(64usize), Just(128), Just(512), Just(4096)]],
+        vsim::arb_small_cap(),
+    )
+        .prop_map(|(in_cap, out_cap)| Op::Attach { in_cap, out_cap })
 }
 
 // ---------------------------------------------------------------------------------------------------
